@@ -552,3 +552,33 @@ func (d *Driver) Split(op Op) bool {
 	d.Stats.Equivocations++
 	return true
 }
+
+// RunFair runs benign scheduling (with gossip emulation when nothing else is left) until every
+// live honest node has committed height `until` or maxSteps is exhausted. It reports whether the
+// target was reached.
+func (d *Driver) RunFair(until int64, maxSteps int) bool {
+	reached := func() bool {
+		for _, n := range d.honestAlive() {
+			if n.Store.Height() < until {
+				return false
+			}
+		}
+		return true
+	}
+	idle := 0
+	for i := 0; i < maxSteps; i++ {
+		if reached() {
+			return true
+		}
+		if d.FairStep() {
+			idle = 0
+			continue
+		}
+		idle++
+		if idle > 3 {
+			return reached()
+		}
+		d.Sync()
+	}
+	return reached()
+}
